@@ -21,7 +21,7 @@ by 1e9 is saturating and flows into a saturating add with the operation's timest
 Record.ttl_expiry (C10) and recovery stores the parsed value back unchanged; migration opens its source with TTL
 filtering off. Not decided: wall-clock behaviour, sweeper interleavings.
 """
-DECIDED = ["(a) one strict expiry predicate", "(b) lazy check before any bytes are returned", "(c) re-validation under the guard; recovery order",
+DECIDED = ["a TTL-only generation's borrowed disk read pins, loads and verifies against the generation that owns the extent (shared with C08.pin)", "(a) one strict expiry predicate", "(b) lazy check before any bytes are returned", "(c) re-validation under the guard; recovery order",
            "(d) saturating expiry arithmetic", "(e) parsed expiry stored unchanged by recovery",
            'the lazy expiry test reads the clock inside resolve_record_value, never a caller-supplied now']
 NOT_DECIDED = ["(f) wall-clock behaviour / timing", "sweeper vs writer interleavings"]
@@ -72,8 +72,7 @@ PRED_SITES = [
 ]
 
 
-def check_pred(ctx):
-    inst = "C11.pred"
+def check_pred(ctx, inst="C11.pred"):
     total = 0
     bodies = []
     for fn, n in PRED_SITES:
@@ -301,7 +300,16 @@ def check_indexes(ctx):
     C14.check_pair(ctx, "C11.indexes")
 
 
+def check_ttl_borrow(ctx):
+    """a TTL-only generation (update_ttl / persist on a value that lives only on disk) borrows its predecessor's bytes: the disk
+    read walks to the generation that owns the extent and must pin, load and *verify* against that generation. Verifying against
+    the requested generation hides a just-renewed, unexpired key behind StaleExtent until the next flush (same rule as C08.pin)"""
+    from rules import C08
+    C08.check_pin(ctx, "C11.ttl-borrow")
+
+
 def check(ctx):
+    check_ttl_borrow(ctx)
     check_indexes(ctx)
     check_pred(ctx)
     check_lazy(ctx)
